@@ -746,6 +746,11 @@ pub enum FetchAuditError {
         #[source]
         error: url::ParseError,
     },
+    #[error("{import_name}'s criteria table is invalid: {reason}")]
+    InvalidCriteriaTable {
+        import_name: ImportName,
+        reason: String,
+    },
     #[error("error when aggregating multiple sources for {import_name}")]
     #[diagnostic(help("all sources for mapped custom criteria must have identical descriptions"))]
     Aggregate {
